@@ -179,9 +179,9 @@ theorem if_inb (b : Bytes) (hv : ifValid b = true) :
   obtain ⟨⟨h40, _⟩, hc, hvl⟩ := hv
   have hc16 := beAt_two_lt b 36
   generalize hcdef : beAt b 36 2 = c at hc hvl hc16
-  have hvpos : 38 + (c + c % 2) % 65536 + 2 ≤ b.length := by omega
+  have hvpos : 38 + (c + c % 2) + 2 ≤ b.length := by omega
   have hacc : ifAccess b = some [dataView "streamIds" 38 c,
-      dataView "vendorData" (38 + (c + c % 2) % 65536 + 2) (beAt b (38 + (c + c % 2) % 65536) 2)] := by
+      dataView "vendorData" (38 + (c + c % 2) + 2) (beAt b (38 + (c + c % 2)) 2)] := by
     simp only [ifAccess, rd_ok b 0 36 (by omega), rd_ok b 36 2 (by omega), hcdef, bind, Option.bind, pure,
       rd_ok b _ 2 hvpos]
   refine ⟨_, hacc, ?_⟩
@@ -191,12 +191,7 @@ theorem if_inb (b : Bytes) (hv : ifValid b = true) :
   · exact dataView_inb _ _ _ _ (Or.inr (by omega))
   · apply dataView_inb
     right
-    by_cases hw : c + c % 2 < 65536
-    · rw [Nat.mod_eq_of_lt hw]
-      omega
-    · have hc' : c + c % 2 = 65536 := by omega
-      have := beAt_two_lt b (38 + (c + c % 2) % 65536)
-      omega
+    omega
 
 /-! ### every delivered packet's payload comes out of `Packet::create` -/
 
